@@ -353,6 +353,32 @@ def late_container(inp):
         return {"got": got, "expected": exp, "witness_class": f"late-container:{inp['kind']}:{'declared-sources-ignored' if inp['container_declares_uncertainties'] else 'no-sources'}"}
 
 
+def gen_mixed_sign(tier, seed):
+    for cf in ("chi2", "chi2_covariance", "nll-gaussian"):
+        for ref in ("data", "model"):
+            for rho in (1.0, 0.6, 0.0):
+                yield {"cost": cf, "reference": ref, "correlation": rho}
+
+
+@R.oracle("relative_sources_with_values_of_both_signs", gen_mixed_sign, obligation="SimpleGaussianError._calculate_cov_mat")
+def mixed_sign(inp):
+    """a source relative to data / model values of BOTH signs: sigma_i = relative size x value_i keeps the sign, so correlated points on opposite sides of zero are anti-correlated in absolute terms"""
+    d = np.array([1.8, -2.3, 3.9, -4.4])
+    model = lambda a=1.2, b=0.3: a * np.array([1.0, -2.0, 3.0, -4.0]) + b
+    fit = IndexedFit(d, model, cost_function=inp["cost"])
+    fit.add_error(0.3)
+    fit.add_error(0.1, relative=True, correlation=inp["correlation"], reference=inp["reference"])
+    for pt in ((1.1, 0.4), (0.9, -0.2)):
+        fit.set_all_parameter_values(pt)
+        m = model(*pt)
+        sig = 0.1 * (d if inp["reference"] == "data" else m)
+        rho = np.full((4, 4), inp["correlation"]); np.fill_diagonal(rho, 1.0)
+        V = 0.09 * np.eye(4) + np.outer(sig, sig) * rho
+        exp, got = generic_formula(inp["cost"], d, m, V, 0.0), float(fit.cost_function_value)
+        if not math.isclose(got, exp, rel_tol=1e-9, abs_tol=1e-10):
+            return {"got": got, "expected": exp, "witness_class": f"mixed-sign:{inp['cost']}:relative-to-{inp['reference']}:rho-{inp['correlation']:g}"}
+
+
 def gen_hist(tier, seed):
     for cf in ("nll-poisson", "nllr-poisson", "chi2", "gauss_approximation", "gauss_approximation_pointwise", "nll-gaussian"):
         for mix in ([], ["y_abs"], ["y_rel_model"], ["y_abs_cor"]):
